@@ -195,7 +195,15 @@ def run(prog: Program, rep: Report, tier: str):
                     if (not want and installed is not False) or (want and installed is False):
                         ok_hook = False
     try:
-        hf, hps = P.closure_paths(prog, outer, "_slots_setstate")
+        # the function installed as __setstate__: a closure of slotted() or a module-level function
+        installed = [e[3] for pth in hook_paths for e in pth.events if e[0] == "setitem" and is_cls_dict(e[1]) and e[2] == ("const", "__setstate__")]
+        target = installed[0] if installed else None
+        if target is not None and target[0] == "ref" and target[1] in prog.functions:
+            hf = prog.functions[target[1]]
+            hps = P.paths_of(prog, hf)
+        else:
+            name = target[1].rsplit(".", 1)[-1] if target is not None and target[0] == "closure" else "_slots_setstate"
+            hf, hps = P.closure_paths(prog, outer, name)
         setters = [c for hp in hps for c in hp.calls() if T.refname(c[1]) in ("builtins.object.__setattr__", "builtins.setattr") or (c[1][0] == "attr" and c[1][2] == "__setattr__")]
         good = bool(setters) and all(T.refname(c[1]) == "builtins.object.__setattr__" and c[2][:1] == (("param", hf.params[0]),) for c in setters)
         rep.check(good, "R19.4", hf.qualname, hf.loc, "the pickle hook restores slots with object.__setattr__ (frozen classes reject every other setter)", "the pickle hook does not restore slots through object.__setattr__(self, …): for a frozen subclass the inherited frozen __setattr__ raises on copy / pickle", detail="hook-setter")
